@@ -156,7 +156,7 @@ claim("C16", "DESIGN.md 5/C16", "Lean theorems over tables regenerated from the 
       "and mixed files; each file is also compared with the MPilot file written by hand from the mapping rule (structure and results with the real bodies).", XB)
 
 claim("C17", "DESIGN.md 5/C17", "Lean theorems on the column-reading logic + correspondence incl. a model of the csv reader/writer + order/type/mask/line oracles and bit-identity round trip",
-      "Theorems in MPilot.C17 over the records the csv reader yields: columnValues_spec (row order, blank records skipped), other_columns_irrelevant, invalid_value_line (a non-numeric cell "
+      "MPilot.C17 (Props/C17Table.lean): written_table_records - the table EEMSWrite assembles (Model/Csv.csvWriteTable: the header of result names in the listed order, then record i holding cell i of every result) is read back by the reader's record splitter as exactly that header and one record per cell, whatever names and cell texts contain; written_table_row_count, written_table_cell. Theorems in MPilot.C17 over the records the csv reader yields: columnValues_spec (row order, blank records skipped), other_columns_irrelevant, invalid_value_line (a non-numeric cell "
       "in the k-th record is reported on line k+2), csvRead_type_and_mask (element type; a cell is missing exactly when it equals the missing value after conversion to the element type), csv_row_roundtrip / csv_table_roundtrip (the csv reader model inverts the csv writer model for every table of text fields, so header names needing quoting survive). "
       "The csv module is modelled (csvRows/csvField) and compared with the real one on every table; bit-identical write/read round trip of doubles rests on CPython's shortest repr and is "
       "established by testing on the implementation only (subnormals, extremes, negative zero included). Known finding C17-F16: a missing cell is written as '--'.",
